@@ -362,3 +362,44 @@ pub fn a15_compare_content() {
     assert!(cc == same, "C15: compare_content is true exactly for equal sequence number and pairs");
     assert!(cc == cc_rev, "C15: compare_content is symmetric");
 }
+
+// ------------------------------------------------------------------------------------------------
+// verify() pinned on by-parts records (used compositionally by C05/C06, and by C01)
+// ------------------------------------------------------------------------------------------------
+
+/// verify() is true exactly when id is "v4" and the signature is the carried key's MAC over the
+/// record's content list: arbitrary seq, arbitrary id value (2 bytes), arbitrary signature bytes and
+/// length 0..=6, one optional port entry.
+#[cfg_attr(kani, kani::proof)]
+#[cfg_attr(kani, kani::stub(enr::digest, digest_stub))]
+#[cfg_attr(kani, kani::stub(enr::Enr::id, id_stub))]
+#[cfg_attr(kani, kani::stub(<[u8]>::to_vec, to_vec_stub))]
+pub fn a_verify_iff() {
+    let seq = sym::u64();
+    let pk = sym::u8();
+    sym::assume(pk >= 0x80);
+    let idv: [u8; 2] = sym::bytes::<2>();
+    let idraw = [0x82u8, idv[0], idv[1]];
+    let kraw = [0x81u8, pk];
+    let port = sym::u16();
+    let (pe, pn) = ref_port_enc(port);
+    let pairs: [(&[u8], &[u8]); 3] = [(b"id", &idraw), (KNAME, &kraw), (b"tcp", &pe[..pn])];
+    let mut sm = SortedMap::new();
+    sm.push(b"id", mk_bytes(&idraw));
+    sm.push(KNAME, mk_bytes(&kraw));
+    sm.push(b"tcp", mk_bytes(&pe[..pn]));
+    let sig: [u8; 6] = sym::bytes::<6>();
+    let sl = sym::usize();
+    sym::assume(sl <= 6);
+    let e = Enr::<MKey>::verif_from_parts(seq, NodeId::new(&hdigest(&[pk])), sm.done(), mk_vec(&sig[..sl]));
+    let got = e.verify();
+    core::mem::forget(e);
+    let m = ref_mac(pk, seq, &pairs);
+    let sig_good = sl >= 3 && sig[0] == m[0] && sig[1] == m[1] && sig[2] == m[2]
+        && (sl < 4 || sig[3] == m[3]) && (sl < 5 || sig[4] == 0x55) && (sl < 6 || sig[5] == 0x55);
+    let want = idv[0] == b'v' && idv[1] == b'4' && sig_good;
+    vcover!(got, "verifies");
+    vcover!(!got && sig_good, "good signature, other identity scheme");
+    vcover!(!got && idv[0] == b'v' && idv[1] == b'4', "v4 with a bad signature");
+    assert!(got == want, "C05: verify() holds exactly for id v4 and a signature of the carried key over the record's content");
+}
